@@ -44,15 +44,22 @@ CandidateInstants(blocks, selBlocks, q) ==
 CoverageHole(blocks, selBlocks, q) ==
     \E t \in CandidateInstants(blocks, selBlocks, q) : UncoveredAt(blocks, selBlocks, q, t)
 
+(* Request hints may carry block matchers (on the blocks' external labels and __block_id): then *)
+(* only matching blocks may be selected.  q.allowed (optional field) = ids of the matching       *)
+(* blocks.  What such a request must still cover is not part of the statement: the coverage     *)
+(* clause is judged only for requests without block matchers.                                    *)
+HasMatchers(q) == "allowed" \in DOMAIN q
+AllowedIds(blocks, q) == IF HasMatchers(q) THEN q.allowed ELSE { b.id : b \in blocks }
+
 (* sel = the sequence of block ids a selection returned.  The set of violated clauses of C15.   *)
 Judge(blocks, q, sel) ==
     LET ids == { b.id : b \in blocks }
         selBlocks == { b \in blocks : b.id \in SeqRange(sel) }
-    IN  (IF SeqRange(sel) \subseteq ids THEN {} ELSE {"selected-blocks-exist-in-the-layout"})
+    IN  (IF SeqRange(sel) \cap ids \subseteq AllowedIds(blocks, q) THEN {} ELSE {"only-blocks-matching-the-block-matchers"}) \cup (IF SeqRange(sel) \subseteq ids THEN {} ELSE {"selected-blocks-exist-in-the-layout"})
         \cup (IF \A b \in selBlocks : b.res <= q.maxres THEN {} ELSE {"never-exceeds-max-resolution"})
         \cup (IF Cardinality(SeqRange(sel)) = Len(sel) THEN {} ELSE {"never-duplicates-a-block"})
         \cup (IF \A b \in selBlocks : Overlaps(b, q) THEN {} ELSE {"all-overlap-the-query-range"})
-        \cup (IF CoverageHole(blocks, selBlocks, q) THEN {"covers-what-allowed-blocks-cover"} ELSE {})
+        \cup (IF ~HasMatchers(q) /\ CoverageHole(blocks, selBlocks, q) THEN {"covers-what-allowed-blocks-cover"} ELSE {})
 
 (* ------------------------- algorithm level ------------------------- *)
 (* bucketBlockSet keeps one slice per resolution, sorted by (MinTime, MaxTime) (add()).  Blocks  *)
@@ -84,15 +91,17 @@ NewStart(start, b) == IF MonotoneStart THEN Max(start, b.max) ELSE b.max
 
 (* The recursion of getFor as a function: fill mint..maxt with the blocks of the level, and the  *)
 (* gaps (before each block, and after the last) with the next finer level.                       *)
-RECURSIVE GetForRec(_, _, _, _), GetForLoop(_, _, _, _, _, _, _)
-Finer(blocks, lo, hi, i) == IF i < 3 THEN GetForRec(blocks, lo, hi, i + 1) ELSE <<>>
-GetForLoop(blocks, lvl, k, start, mint, maxt, i) ==
-    IF k > Len(lvl) \/ lvl[k].min > maxt THEN Finer(blocks, start, maxt, i)
-    ELSE IF lvl[k].max <= mint THEN GetForLoop(blocks, lvl, k + 1, start, mint, maxt, i)
-    ELSE Finer(blocks, start, lvl[k].min - 1, i) \o <<lvl[k].id>>
-         \o GetForLoop(blocks, lvl, k + 1, NewStart(start, lvl[k]), mint, maxt, i)
-GetForRec(blocks, mint, maxt, i) ==
-    IF mint > maxt THEN <<>> ELSE GetForLoop(blocks, Level(blocks, i), 1, mint, mint, maxt, i)
+(* al = ids of the blocks that match the request's block matchers: a block that does not match  *)
+(* is not appended, but it still counts as covering its range (start moves past it).            *)
+RECURSIVE GetForRec(_, _, _, _, _), GetForLoop(_, _, _, _, _, _, _, _)
+Finer(blocks, lo, hi, i, al) == IF i < 3 THEN GetForRec(blocks, lo, hi, i + 1, al) ELSE <<>>
+GetForLoop(blocks, lvl, k, start, mint, maxt, i, al) ==
+    IF k > Len(lvl) \/ lvl[k].min > maxt THEN Finer(blocks, start, maxt, i, al)
+    ELSE IF lvl[k].max <= mint THEN GetForLoop(blocks, lvl, k + 1, start, mint, maxt, i, al)
+    ELSE Finer(blocks, start, lvl[k].min - 1, i, al) \o (IF lvl[k].id \in al THEN <<lvl[k].id>> ELSE <<>>)
+         \o GetForLoop(blocks, lvl, k + 1, NewStart(start, lvl[k]), mint, maxt, i, al)
+GetForRec(blocks, mint, maxt, i, al) ==
+    IF mint > maxt THEN <<>> ELSE GetForLoop(blocks, Level(blocks, i), 1, mint, mint, maxt, i, al)
 
 RECURSIVE DedupSeq(_, _)
 DedupSeq(s, seen) ==
@@ -101,7 +110,7 @@ DedupSeq(s, seen) ==
     ELSE <<Head(s)>> \o DedupSeq(Tail(s), seen \cup {Head(s)})
 
 GetFor(blocks, q) ==
-    LET r == GetForRec(blocks, q.mint, q.maxt, FirstLevel(q.maxres))
+    LET r == GetForRec(blocks, q.mint, q.maxt, FirstLevel(q.maxres), AllowedIds(blocks, q))
     IN  IF DedupResult THEN DedupSeq(r, {}) ELSE r
 
 (* multiset of a sequence, for order-insensitive comparison *)
